@@ -90,8 +90,11 @@ def run_case(seed, index, props):
     return viol, tags, desc, 'ok'
 
 
+DEFAULT_BUDGET = {'quick': 300, 'thorough': 5000}
+
+
 def run(props, tier, seed, budget=None):
-    return generic_run('render', run_case, props, seed, budget or (250 if tier == 'quick' else 5000),
+    return generic_run('render', run_case, props, seed, budget or DEFAULT_BUDGET[tier],
                        'seeded random scheduled WBS (1-6 tasks, hierarchy, links, milestones, sections, style attributes) with adversarial single-line names (quotes, braces, angle brackets, $, :, arrows, non-ASCII); distinct by input',
                        lambda d: d if len(d['wbs']) > 1 else None)
 
